@@ -281,6 +281,9 @@ def r12c(ctx, P):
     ctx.floor(rid + ".feed", len(calls), 1, "AggregationNode::collect call in the per-document loop")
 
 
+THOROUGH_FEATURES = ['r12c']
+
+
 def run(ctx, progs):
     P = progs.get("default")
     r12a(ctx, P)
